@@ -375,6 +375,11 @@ func propC06(j *Job) {
 			}
 		}
 	}
+	if j.Thorough() {
+		cases = append(cases, famKS(modes, 3, true, []time.Duration{0, 300 * time.Millisecond}, 4)...)
+	} else {
+		cases = append(cases, famKS(modes, 2, true, []time.Duration{0}, 3)...)
+	}
 	// T8: a timed message of 8 fragments needs two congestion-window flights; the round trip is
 	// longer than the lifetime, so the second flight is first sent after the message expired and
 	// its lost fragments must not be retransmitted.
@@ -483,6 +488,11 @@ func propC07(j *Job) {
 	}
 	cases = append(cases, famW5(modes, 2)...)
 	cases = append(cases, famM1(modes, j.Thorough())...)
+	if j.Thorough() {
+		cases = append(cases, famKS(modes, 3, true, []time.Duration{0, 300 * time.Millisecond}, 4)...)
+	} else {
+		cases = append(cases, famKS(modes, 2, true, []time.Duration{0, 300 * time.Millisecond}, 3)...)
+	}
 	runCases(j, cases, func(spec *xferSpec) func(m *Sim, x *Exec, r *xferResult) { return prFinal(spec, true) })
 }
 
